@@ -205,7 +205,7 @@ CHECKS = {
                 'numbers index saved entries as k - len(labels) - 1; the axiom pattern loaded is the one main() declares; the stack top '
                 'is asserted to prove the target before publication; Interpreter.pattern nets +1 on every arm. NOT decided: the '
                 'converter\'s images of terms, notations and axioms, nor acceptance of any database (run-time data); proofs using other '
-                'proof rules are outside the stated fragment (reported as advisory). The numbering of the target\'s mandatory hypotheses and the label-list tokens are checked with C15\'s rules (the replay resolves the letters through them).',
+                'proof rules are outside the stated fragment (reported as advisory). The numbering of the target\'s mandatory hypotheses and the label-list tokens are checked with C15\'s rules (the replay resolves the letters through them). get_delta adds exactly one entry per metavariable label on every path; every Axiom / Lemma the converter builds takes its `metavars` from the statement\'s variables, never from the metavariables of the converted pattern (the assumption of the stack rule, checked at its 5 construction sites).',
         'note': 'Trusted: tracker effects (decided under C04), prelude statements in the benchmark databases, assumption that the '
                 'mandatory floats of a non-prelude label are get_metavars_in_order(label) and its essentials are the antecedents.',
         'design_ref': 'DESIGN.md section 3, C16',
@@ -248,7 +248,7 @@ CHECKS = {
                 'writers. ConvertionScope allocators are injective and stable (len(table) under a not-in guard, disjoint bases, tables '
                 'never shrink); each axiom is converted in a fresh scope cached under its own ordinal and substitutions are converted '
                 'in that scope by lookup. Commutation of conversion with substitution and checker acceptance are not decided (the K '
-                'modules cannot even be imported here; the analysis is purely syntactic).',
+                'modules cannot even be imported here; the analysis is purely syntactic). KSymbol.unwrap_kore_name is the exact inverse of the prefixing in aml_symbol (removeprefix / slice of the prefix length under a startswith guard); the rows of instantiate, load and the publishes (the only calls a K proof makes) are the C02 rows.',
         'note': 'Trusted: python ast.',
         'design_ref': 'DESIGN.md section 3, C20',
     },
